@@ -331,6 +331,7 @@ class VariantJob:
     # ---- numeric side
     def sample_points(self, ctx, rng, n, tries=400):
         out = []
+        strata = []
         maxtries, tries = tries, 0
         while len(out) < n and tries < maxtries:
             tries += 1
@@ -340,9 +341,23 @@ class VariantJob:
             try:
                 if all(f_eval(f, env) for f in ctx.pre):
                     out.append(env)
+                    if len(out) == 1:
+                        # strata a random draw never hits: the same point with a stored azimuth of exactly 0 (and exactly pi/2), one polar operand at a time
+                        for d in ctx.inputs:
+                            if "scalar" in d or "phi" not in d.get("vars", {}):
+                                continue
+                            for cs in ((1, 0), (0, 1)):
+                                b2 = dict(base)
+                                b2[d["vars"]["phi"][0]], b2[d["vars"]["phi"][1]] = mp().mpf(cs[0]), mp().mpf(cs[1])
+                                e2 = EnvGet(ctx, b2)
+                                try:
+                                    if all(f_eval(f, e2) for f in ctx.pre):
+                                        strata.append(e2)
+                                except (ZeroDivisionError, KeyError, ValueError):
+                                    pass
             except (ZeroDivisionError, KeyError, ValueError):
                 continue
-        return out
+        return out + strata
 
     def fixup(self, ctx, base, rng, tries):
         """steer random draws into narrow preconditions (|beta|<1, timelike booster, t>|z| ...)"""
